@@ -33,7 +33,12 @@ def main():
         n = s.count(m["find"])
         if n < 1 or (n != 1 and not m.get("all")):
             print(f"MUTANT {m['id']}: anchor found {n} times -> stale mutant"); bad += 1; continue
-        open(p, "w").write(s.replace(m["find"], m["replace"]))
+        s = s.replace(m["find"], m["replace"])
+        if "find2" in m:   # a second edit in the same file (e.g. hoist a value, then use it)
+            if s.count(m["find2"]) != 1:
+                print(f"MUTANT {m['id']}: second anchor found {s.count(m['find2'])} times -> stale mutant"); bad += 1; continue
+            s = s.replace(m["find2"], m["replace2"])
+        open(p, "w").write(s)
         t0 = time.time()
         cmd = [os.path.join(ROOT, "check"), m["property"], "--repo", sc, "--no-witness", "--tier", m.get("tier", "quick")]
         for u in m.get("units", []): cmd += ["--unit", u]
